@@ -936,12 +936,21 @@ func (r *Runner) mismatch(o Op) {
 	r.S = nil
 	cfg := r.Env.Cfg
 	var want string
-	if o.A == 0 {
+	if o.A%2 == 0 {
 		cfg.IndexFileSize = cfg.IndexFileSize/2 + 7
 		want = "index"
 	} else {
 		cfg.PrimaryFileSize = cfg.PrimaryFileSize/2 + 7
 		want = "primary"
+	}
+	if o.A >= 2 {
+		// the same open also asks for another index bit size: the file-size mismatch must still be refused
+		if cfg.Bits < 24 {
+			cfg.Bits++
+		} else {
+			cfg.Bits--
+		}
+		r.Res.Add("mismatch_opens_combined_with_bit_size_change", 1)
 	}
 	s, err := r.Env.OpenCfg(cfg, r.Opt.Extra...)
 	r.Res.Add("mismatch_opens_"+want, 1)
